@@ -132,13 +132,15 @@ PLAN = {
                 traces=[dict(job="seq", spec="TraceSeq"), dict(job="que", spec="TraceQue"), dict(job="heap", spec="TraceHeap"),
                         dict(job="set", spec="TraceSet"), dict(job="map", spec="TraceMap"), dict(job="alg", spec="TraceAlg"),
                         dict(job="cur", spec="TraceCursor"), dict(job="enum", spec="TraceEnum"),
-                        dict(job="json", spec="TraceJSON", together=True), dict(job="alias", spec="TraceAlias", together=True)],
+                        dict(job="json", spec="TraceJSON", together=True), dict(job="alias", spec="TraceAlias", together=True),
+                        dict(job="exo", spec="TraceExo", together=True)],
                 mc=[MC_SEQ[0], MC_SEQ[2]], trusted=["fd-level capture of stdout/stderr (dup2), recover(), watchdog timer in the harness"]),
     "C18": dict(level="exploration", design="6 C18", race=True,
                 traces=[dict(job="rd", spec="TraceReaders", race=True),
                         dict(job="seq", spec="TraceSeq"), dict(job="que", spec="TraceQue"), dict(job="heap", spec="TraceHeap"),
                         dict(job="set", spec="TraceSet"), dict(job="map", spec="TraceMap"), dict(job="alg", spec="TraceAlg"),
-                        dict(job="cur", spec="TraceCursor"), dict(job="enum", spec="TraceEnum"), dict(job="alias", spec="TraceAlias", together=True)],
+                        dict(job="cur", spec="TraceCursor"), dict(job="enum", spec="TraceEnum"), dict(job="alias", spec="TraceAlias", together=True),
+                        dict(job="exo", spec="TraceExo", together=True)],
                 mc=MC_READERS,
                 trusted=["Go race detector (happens-before based)", "deep reflection fingerprint of the container"]),
     "C05": dict(level="model_checking", design="6 C05",
